@@ -250,6 +250,7 @@ fn configs(prop: &str, thorough: bool) -> Vec<(Cfg, Option<usize>)> {
                 v.push(default_cfg("C11/cw20-T2-under-default-limit/2ch", false));
                 v.push(pair_cfg("C11/native+cw20/2ch", false));
                 v.push(crossed(native_cfg("C11/native/2ch-crossed-ids", QUICK)));
+                v.push(v2_cfg("C11/upgrade/v2-0.13.0-inflight", false));
             } else {
                 v.push(crossed(native_cfg("C11/native/2ch-crossed-ids/faults2", DEEP)));
                 v.push(crossed(cw20_cfg("C11/cw20-listed-limit1/2ch-crossed-ids/faults2", Some(1), DEEP)));
@@ -417,7 +418,7 @@ fn describe(prop: &str) -> (&'static str, &'static str) {
             "after every step, for every token: real holdings of the ics20 contract (kernel bank / cw20 Balance) >= sum over channels of Channel{id}.balances; monitor per (channel, denom): credit = escrowed by accepted transfers - really paid out (redemptions + refunds, measured as falls of the contract's real balance in steps on that channel) >= 0; a packet whose denom is not a proper voucher of this channel for a local token, or whose amount exceeds the channel balance reported before the step, or that is not ICS-20 data moves no bank or cw20 balance at all; holdings never move in governance / migrate steps",
         ),
         "C12" => (
-            "the C11 alphabet over the governance configurations {no allow list & no default, T1 listed with limit, T1 listed + T2 admitted by the default limit, unlisted token allowed later by governance, (thorough) unlimited, native+cw20}; storages built byte-wise in the 0.11.1 and 0.12.0-alpha1 layout (v1 ics20_config = {default_timeout, gov_contract}, no admin item, no allow list, cw20 T1 outstanding and escrowed, one more T1 send still in flight and not yet counted) and in the 0.13.0 layout (sends in flight escrowed but not yet counted), each followed by Migrate{None | Some(2)} and then transfers, packets, acks, timeouts, Allow by governance; same-version Migrate{None|Some} at every reachable state; transfers with requested / default timeout, memo set / unset / empty at two block times; amounts 1, 2^64-1, 2^64 for native and cw20",
+            "the C11 alphabet over the governance configurations {no allow list & no default, T1 listed with limit, T1 listed + T2 admitted by the default limit, unlisted token allowed later by governance, (thorough) unlimited, native+cw20}; storages built byte-wise in the 0.11.1 and 0.12.0-alpha1 layout (v1 ics20_config = {default_timeout, gov_contract}, no admin item, no allow list, cw20 T1 outstanding and escrowed, one more T1 send still in flight and not yet counted) and in the 0.13.0 layout (sends in flight escrowed but not yet counted; also a 0.13.0 storage with TWO channels carrying the same denominations, whose migration the real code refuses), each followed by Migrate{None | Some(2)} and then transfers, packets, acks, timeouts, Allow by governance; same-version Migrate{None|Some} at every reachable state; transfers with requested / default timeout, memo set / unset / empty at two block times; amounts 1, 2^64-1, 2^64 for native and cw20",
             "reference per (channel, denom): outstanding = accepted sends - sends whose error-ack/timeout was processed - amounts of incoming packets answered with a success ack, compared with Channel{id}.balances after every step; total_sent never falls; per incoming packet: ibc_packet_receive never returns Err/panics; success ack => receiver's real balance rose by exactly the amount and the channel balance fell by it; error ack => ALL Channel queries, all bank and cw20 balances, Config, Admin, ListAllowed, Allowed and the packets in flight equal the pre-state; per accepted transfer: exactly one committed IbcMsg::SendPacket, by the ics20 contract, on the requested channel, data == {amount (<= 2^64-1), denom (native name | cw20:<token>), receiver, sender = paying user, memo iff requested}, timeout timestamp == block time + (requested | default) seconds, contract holdings rose and payer's balance fell by the amount; migrations leave balances alone and arrive at outstanding == escrow",
         ),
         "C18" => (
